@@ -695,21 +695,16 @@ def _shape_of(rng, shape):
 
 def _range_axis(rng, n, which, positive=False):
     """an axis as create_time_range / create_frequency_range makes it (numpy.arange, non-dyadic step, 'step' attribute)"""
-    from soundevent import arrays
     if which == "time":
         a, s = rng.choice([0.5, 3.0] if positive else [0.0, 0.0, 0.5, 3.0]), rng.choice([0.01, 0.1, 0.004, 0.05])
         if a == 0.0 and rng.random() < 0.3:
-            sr = int(round(1 / s))
-            spec = {"start": rat(a), "stop": rat(n * s), "samplerate": sr}
-            var = arrays.create_time_range(a, n * s, samplerate=sr)
+            spec = {"start": rat(a), "stop": rat(n * s), "samplerate": int(round(1 / s))}
         else:
             spec = [rat(a), rat(a + n * s), rat(s)]
-            var = arrays.create_time_range(a, a + n * s, step=s)
     else:
         a, s = rng.choice([100.0, 1000.0] if positive else [0.0, 0.0, 100.0, 1000.0]), rng.choice([0.3, 100.1, 43.066, 0.1, 1000 / 3])
         spec = [rat(a), rat(a + n * s), rat(s)]
-        var = arrays.create_frequency_range(a, a + n * s, step=s)
-    vals = [float(x) for x in var.values]
+    vals, _step = _built_axis(which, spec)
     if not vals:
         vals, spec = [a], None
     return vals, spec
@@ -931,14 +926,25 @@ LATTICE_AXES_THOROUGH = [("time", {"start": "0", "stop": "1", "samplerate": 1000
 
 
 def _built_axis(which, spec):
-    """the coordinates a range constructor of the library gives for `spec` (the request then records these numbers)"""
+    """the coordinates a range constructor of the library gives for `spec` (the request then records these numbers);
+    should the constructor fail (it is C16's subject, not C20's) the same lattice comes from numpy directly"""
+    import numpy as np
     from soundevent import arrays
     if isinstance(spec, dict):
-        var = arrays.create_time_range(float(frac(spec["start"])), float(frac(spec["stop"])), samplerate=spec["samplerate"])
-        return [float(x) for x in var.values], 1.0 / spec["samplerate"]
-    a, b, s = (float(frac(x)) for x in spec)
-    var = arrays.create_time_range(a, b, step=s) if which == "time" else arrays.create_frequency_range(a, b, step=s)
-    return [float(x) for x in var.values], s
+        a, b, s = float(frac(spec["start"])), float(frac(spec["stop"])), 1.0 / spec["samplerate"]
+    else:
+        a, b, s = (float(frac(x)) for x in spec)
+    try:
+        if isinstance(spec, dict):
+            var = arrays.create_time_range(a, b, samplerate=spec["samplerate"])
+        else:
+            var = arrays.create_time_range(a, b, step=s) if which == "time" else arrays.create_frequency_range(a, b, step=s)
+        vals = [float(x) for x in var.values]
+    except Exception:  # noqa: BLE001
+        vals = []
+    if not vals or any(y <= x for x, y in zip(vals, vals[1:])):
+        vals = [float(x) for x in np.arange(a, b - s / 2, s)]
+    return vals, s
 
 
 def _lattice_variants(coords, k, start, step):
@@ -1209,6 +1215,13 @@ def _h_modify(args, inp, how):
     or a list remembered from its earlier use may survive the change.  Whatever is unchanged between the two steps
     stays the same Python object (the template when only geometries change, the geometries when only the template
     changes), so that anything keyed by identity meets changed content"""
+    try:
+        return _h_modified(args, inp, how)
+    except Exception:  # noqa: BLE001 - objects that can no longer be edited this way are simply built afresh
+        return None
+
+
+def _h_modified(args, inp, how):
     import numpy as np
     prev = args["inp"]
     if how not in _h_applicable(prev, inp):
